@@ -61,6 +61,26 @@ PROPS = {
              "retrieval with i > 0, or no extents, or an expected error. Distinct = hash of the decoded case.",
         assumptions=COMMON_ASSUME + ["descriptors conform to the data (as many ticks / labels / rows as elements)"],
     ),
+    "C17": dict(
+        bin="h_access", sub="c17", level="exploration",
+        technique="rapidcheck-generated slices (start/end/unit vectors of independent lengths) compared with the brute-force region, and generated request sequences on DataView windows compared with an in-memory model of the underlying array",
+        level_text="slices: arrays as in C05, start and end vectors of 0..rank entries each (independently; also rank+1), bounds on / one "
+                   "ulp beside / between / outside coordinates, start <, =, > end, units absent / equal / prefix-scaled, both modes and the "
+                   "default; expected: exactly the elements with coordinates in [start,end] / [start,end), a missing bound replaced by the "
+                   "end of the axis (inclusive), unspecified dimensions in full, an exception for start > end, an empty region or a region "
+                   "leaving the data. Views: arrays of rank 1-3, a window anywhere inside (or leaving the array: refused), 4-19 read / "
+                   "write requests inside, touching and crossing the window edge in exactly one dimension, with rank mismatch, values "
+                   "near 2^64, without offset / count; reads return model[origin+offset...], writes change exactly those elements, a "
+                   "request past the window throws nix::OutOfBounds, leaves the caller's buffer (sentinel) and the whole array unchanged",
+        level_note="start == end accepts either the single element at or after start or an exception (the statement leaves it open); units "
+                   "are only given for dimensions whose start and end are both given; scaled requests as in C05",
+        quick=dict(cases=2500, size=200, workers=16, timeout=1800),
+        thorough=dict(cases=60000, size=200, workers=16, timeout=14400),
+        rule="tape -> {slice case | view case}. Non-trivial: a slice with fewer start or end entries than dimensions, or with a bound on / "
+             "one ulp beside a coordinate, or with start > end; a view case with a request crossing the window edge in exactly one "
+             "dimension or a read after a write. Distinct = hash of the decoded case.",
+        assumptions=COMMON_ASSUME + ["descriptors conform to the data"],
+    ),
     "C07": dict(
         bin="h_access", sub="c07", level="exploration",
         technique="rapidcheck-generated axes and positions (on, one ulp beside, between, beyond coordinates) against a brute-force search over the axis",
